@@ -286,3 +286,11 @@ package parse
 //@     invariant lex.lastpos <= i && resultLen <= i && i <= lex.pos && 0 <= resultLen && 0 <= lex.lastpos && lex.pos <= len(s) && len(result) == len(s) && substr(lex.str, s, 0) && len(lex.str) == len(s)
 //@     invariant[src;C15] 0 <= src && (i == lex.lastpos ==> src <= i && forall(k, src, i, isWs(s[k]))) && (i > lex.lastpos ==> src == i)
 //@     decreases lex.pos - i
+
+// Parser entry points as seen by other packages. Their bodies (token-level
+// termination and panic-freedom of parse.go) are not under contract yet, so
+// callers rely on this frame-only contract as an assumption.
+//@ trusted Expr -- parser body not yet under contract; callers assume only "returns a node or an error"
+//@   modifies *
+//@ trusted SoyFile -- parser body not yet under contract; callers assume only "returns a tree or an error"
+//@   modifies *
